@@ -41,6 +41,30 @@ func runC10(c *Ctx) {
 func c10x6(c *Ctx) {
 	r := c.R
 	r.Clause("C10-X6", "a key is expired exactly from its expiry second on; TTL changes never apply to an expired or absent key")
+	// X1 (renewal): a key that is absent or expired gets a fresh generation on the write path, whatever its old header
+	// said: every return of renewOnExpired for the six compacted data types is preceded by the three resets
+	if u := c.unit("C10-X1", "rockredis.(*compactExpiration).renewOnExpired"); u != nil {
+		six := "p1 == rockredis.KVType || p1 == rockredis.HashType || p1 == rockredis.SetType || p1 == rockredis.BitmapType || p1 == rockredis.ListType || p1 == rockredis.ZSetType"
+		ret := an.Return().Where("for a compacted data type with a header", func(u *an.Unit, s *an.Site) bool {
+			pc := u.SitePC(s)
+			return !flow.Implies(pc, c.W.Parse("nil == p3")).Holds && !flow.Implies(pc, c.W.Parse("!("+six+")")).Holds
+		})
+		for _, f := range []struct{ field, val string }{
+			{"rockredis.headerMetaValue.ValueVersion", "p0"},
+			{"rockredis.headerMetaValue.ExpireAt", "0"},
+			{"rockredis.headerMetaValue.UserData", "nil"},
+		} {
+			r.Order("C10-X1", u, ret, []an.M{an.Store(f.field)}, an.OrderOpts{Min: 1})
+			r.StoreValues("C10-X1", u, an.Store(f.field), []string{f.val}, 1)
+		}
+	}
+	// the write path asks for the renewal whenever the key is absent or expired, before it derives the versioned key
+	if u := c.unit("C10-X1", "rockredis.(*RockDB).prepareCollKeyForWrite"); u != nil {
+		ren := an.Call("rockredis.expiration.renewOnExpired")
+		r.Order("C10-X1", u, an.Call("rockredis.expiration.encodeToVersionKey"), []an.M{ren}, an.OrderOpts{Assume: "keyInfo.IsNotExistOrExpired()", Min: 1})
+		r.ArgValues("C10-X1", u, ren, 3, []string{"keyInfo.OldHeader", "p3.OldHeader"}, 1)
+		r.ArgValues("C10-X1", u, ren, 0, []string{"p0"}, 1)
+	}
 	retIs := func(v string) func(u *an.Unit, s *an.Site) bool {
 		return func(u *an.Unit, s *an.Site) bool { return len(s.Ret.Results) > 0 && u.C.Term(s.Ret.Results[0]) == v }
 	}
